@@ -139,6 +139,15 @@ def gen(model, header_text):
                     continue
                 gclash = kind == "group" and sum(1 for t2 in trs if m["name"] in [x["name"] for x in traits[t2]["methods"]]) > 1
                 name = (tr.lower() + "_" + m["name"]) if gclash else m["name"]
+                want0 = [CT[t].replace(" ", "") for t in m["args"]]
+                wq0 = {"ref": "const", "mut": "", "own": "&&"}[m["recv"]]
+                if not (name in defined and defined[name]["params"] == want0 and defined[name]["qual"] == wq0):
+                    # no naming convention is demanded: any member named after the method with a fitting signature will do
+                    others = sorted((nm for nm in defined if (nm == m["name"] or nm.endswith("_" + m["name"]))
+                                     and defined[nm]["params"] == want0 and defined[nm]["qual"] == wq0),
+                                    key=lambda nm: (0 if (tr.lower() + "_") in nm else 1, len(nm), nm))
+                    if others:
+                        name = others[0]
                 rec = {"ty": ti, "owner_kind": kind, "owner": owner, "tr": tr, "m": m["name"], "wrapper": name, "cont": cont, "ctx": ctx,
                        "kind": "consuming" if m["recv"] == "own" else "plain", "present": name in defined, "args": m["args"], "ret": m["ret"], "lang": "cpp"}
                 if rec["present"]:
